@@ -67,13 +67,13 @@ def classify(case, v):
     return v.get("mech")
 
 
-def feasible_point(spec, obs, rng):
+def feasible_point(spec, obs, rng, w0=None):
     """returns (w, how) with the dynamic rows satisfied"""
     import copy
     from . import engine
     from ..obs import transport
     cls = spec["method"]["cls"]
-    w = obs.view.random_point(rng, 0.7)
+    w = obs.view.random_point(rng, 0.7) if w0 is None else np.array(w0, dtype=float).copy()
     for key in ("T", "t0"):
         pass
     if cls == "SS":
